@@ -328,14 +328,16 @@ namespace igris
             if (size == 0)
                 return 0;
 
-            int len = (int)size - 1 > (int)_line.current_size()
-                          ? (int)_line.current_size()
-                          : (int)size - 1;
+            // computed in size_t: (int)size is negative or 0 for a size of
+            // 2^31 and more, and the memcpy length became SIZE_MAX
+            size_t len = size - 1 > _line.current_size()
+                             ? _line.current_size()
+                             : size - 1;
 
             memcpy(data, _line.data(), len);
             data[len] = 0;
 
-            return len;
+            return (int)len;
         }
     };
 }
